@@ -298,6 +298,10 @@ func (r *Run) callSSA(caller *frame, pos token.Pos, fn *ssa.Function, args []Val
 		if strings.HasPrefix(key, vfPrefix) {
 			return r.callVF(caller, pos, fn, args)
 		}
+		if st, ok := r.stubs[key]; ok {
+			r.funcsHit["stub:"+key] = true
+			return r.call(caller, pos, st, args)
+		}
 	}
 	if fn.Blocks == nil {
 		if r.inInit > 0 {
